@@ -57,6 +57,10 @@ func decodeJSON(d DocSpec) (any, error) {
 	}
 	var v any
 	if err := dec.Decode(&v); err != nil {
+		if !d.Number && strings.Contains(err.Error(), "cannot unmarshal number") {
+			// Numbers outside float64 (1e400) exist only as json.Number.
+			return decodeJSON(DocSpec{JSON: d.JSON, Number: true})
+		}
 		return nil, err
 	}
 	if dec.More() {
